@@ -150,6 +150,9 @@ package cache
 //@   ensures[kept-rate] keep ==> toInt(asPtr(lruVal(c.kept, id), *keptTraceCacheEntry).rate) == toInt(asPtr(trace, *types.Trace).sampleRate) % 4294967296
 //@   ensures[kept-reason] keep && len(c.keptReasons.data) < 1<<31 ==> 1 <= asPtr(lruVal(c.kept, id), *keptTraceCacheEntry).reason && toInt(asPtr(lruVal(c.kept, id), *keptTraceCacheEntry).reason) <= len(c.keptReasons.data) && c.keptReasons.data[toInt(asPtr(lruVal(c.kept, id), *keptTraceCacheEntry).reason) - 1] == reason
 //@   ensures[dropped-is-remembered] !keep ==> droppedSet(c.dropped, id)
+// the filter is filled through a queue drained a moment later (and drops IDs when the queue is full): the set of
+// recent drops is what makes a drop decision visible to the very next lookup
+//@   ensures[a-drop-is-visible-at-once] !keep ==> in(c.recentDroppedIDs.Items, id)
 //@   ensures[dropped-decisions-are-never-forgotten-by-record] forall k string :: old(droppedSet(c.dropped, k)) ==> droppedSet(c.dropped, k)
 //@   modifies c.keptReasons.data, c.keptReasons.keys, c.keptReasons.mu, asPtr(trace, *types.Trace).keptReason, all(lruHas), all(lruVal), all(lruLen), all(lruAge), all(droppedSet), c.recentDroppedIDs.Items
 
